@@ -352,28 +352,44 @@ def consumes_on_success(env, key, buffer_field):
 
 # ------------------------------------------------------------------------------------------ L4 counted loop
 def counted_stride_loop(env, body, head):
-    """exit test compares counter*stride with a loop-invariant bound; counter += 1 on every back edge; stride >= 1"""
+    """a loop-carried integer x grows by a loop-invariant amount >= 1 on every back edge, and an exit edge is taken as soon as
+    x (or x * stride with a loop-invariant stride >= 1) reaches a loop-invariant bound: the loop terminates"""
     ctx = env.ctx
     it = ctx.interp(body.key)
     blocks = body.loops[head]
     Sh = it.entry_states.get(head)
     if Sh is None:
         return (False, "loop head unreachable")
+
+    def variant(z):
+        return contains(z, lambda q: isinstance(q, tuple) and q[0] == "phi" and q[1] == head)
     phis = [(loc, v) for loc, v in Sh.mem.items() if isinstance(v, tuple) and v[0] == "phi" and v[1] == head and loc[0][0] == "L" and not loc[1]]
+    verdict = None
     for loc, phi in phis:
-        # counter += 1 on every back edge
-        inc_ok = True
+        # x grows by >= 1 on every back edge
+        inc_ok, step, step_lo = True, None, None
+        n_back = 0
         for s in back_edge_sources(body, head):
             Se = it.edge_out.get((s, head))
             if Se is None:
                 continue
+            n_back += 1
             v = Se.read(loc)
             base, off = Se.norm(v)
-            if not (base == phi and off >= 1):
-                inc_ok = False
-        if not inc_ok:
+            if base == phi and off >= 1:
+                step, step_lo = "%d" % off, off if step_lo is None else min(step_lo, off)
+                continue
+            v0 = strip_casts(v)
+            if isinstance(v0, tuple) and v0[0] == "bin" and v0[1] == "Add" and (strip_casts(v0[3]) == phi or strip_casts(v0[4]) == phi):
+                st = v0[4] if strip_casts(v0[3]) == phi else v0[3]
+                if not variant(st):
+                    lo = Se.dom(st).lo
+                    step, step_lo = stable(st), lo if step_lo is None else min(step_lo, lo)
+                    continue
+            inc_ok = False
+        if not inc_ok or not n_back or step_lo is None:
             continue
-        # an exit edge guarded by  phi*stride >= bound
+        # an exit edge taken as soon as f(x) >= bound
         for bi in sorted(blocks):
             t = body.blocks[bi]["term"]
             if t["k"] != "switch":
@@ -386,28 +402,45 @@ def counted_stride_loop(env, body, head):
                 continue
             it.cur = (bi, 0)
             c = it.eval_op(S, t["discr"])
+            neg = False
+            while isinstance(c, tuple) and c[0] == "not":
+                c, neg = c[1], not neg
             if not (isinstance(c, tuple) and c[0] == "cmp"):
                 continue
             op, a, b = c[1], c[2], c[3]
-            if op in ("Lt", "Le"):
-                op, a, b = {"Lt": "Gt", "Le": "Ge"}[op], b, a
-            if op not in ("Ge", "Gt"):
+            if neg:
+                op = {"Lt": "Ge", "Le": "Gt", "Gt": "Le", "Ge": "Lt", "Eq": "Ne", "Ne": "Eq"}[op]
+            if variant(b) and not variant(a):
+                op, a, b = {"Lt": "Gt", "Le": "Ge", "Gt": "Lt", "Ge": "Le", "Eq": "Eq", "Ne": "Ne"}[op], b, a
+            if variant(b) or not variant(a):
+                continue
+            # which truth value of the comparison leaves the loop
+            exit_vals = {v for v, tb in t["targets"] if tb in outs}
+            other_exits = t["otherwise"] in outs
+            exits_when_true = other_exits and 0 in {v for v, tb in t["targets"]} and not exit_vals or (1 in exit_vals)
+            exits_when_false = 0 in exit_vals
+            if exits_when_true and op not in ("Ge", "Gt"):
+                continue
+            if exits_when_false and not exits_when_true and op not in ("Lt", "Le"):
                 continue
             a0 = strip_casts(a)
-            if not (isinstance(a0, tuple) and a0[0] == "bin" and a0[1] == "Mul"):
+            mult = None
+            if a0 == phi:
+                mult = "1"
+                mlo = 1
+            elif isinstance(a0, tuple) and a0[0] == "bin" and a0[1] == "Mul":
+                x, y = a0[3], a0[4]
+                stride = y if strip_casts(x) == phi else (x if strip_casts(y) == phi else None)
+                if stride is None or variant(stride):
+                    continue
+                mult, mlo = stable(stride), S.dom(stride).lo
+            else:
                 continue
-            x, y = a0[3], a0[4]
-            stride = y if strip_casts(x) == phi else (x if strip_casts(y) == phi else None)
-            if stride is None:
-                continue
-            if contains(stride, lambda z: isinstance(z, tuple) and z[0] == "phi" and z[1] == head):
-                continue
-            if contains(b, lambda z: isinstance(z, tuple) and z[0] == "phi" and z[1] == head):
-                continue
-            lo = S.dom(stride).lo
-            if lo >= 1:
-                return (True, "counter %s, stride %s in %s, exit when counter*stride %s %s" % (stable(phi), stable(stride), S.dom(stride), op, stable(b)))
-            return (False, "stride %s may be %s (< 1): the loop would not advance" % (stable(stride), lo))
+            if step_lo >= 1 and mlo >= 1:
+                return (True, "counter %s grows by %s (>= %d) per iteration, exit as soon as counter%s reaches %s" % (stable(phi), step, step_lo, "" if mult == "1" else " * %s (in %s)" % (mult, S.dom(stride)), stable(b)))
+            verdict = (False, "the loop counter %s advances by %s which may be %s, scaled by %s which may be %s (< 1): the loop would not advance" % (stable(phi), step, step_lo, mult, mlo))
+    if verdict is not None:
+        return verdict
     return (None, "not a counted stride loop")
 
 
